@@ -14,6 +14,8 @@ ASSUMPTIONS = [
     "A-SPECTERM: the recursive spec functions in /verif/specs terminate",
     "A-FRAME: process_packet (the connection) does not store to the helper's _buffer/_buffer_len/_pos (frame-scan obligation C01/frame-scan)",
     "A-LOOP: the transport hands received chunks to data_received in order",
+    "stream theorem (lemma:stream / lemma:wire_stream): run_msgs / run_view iterate the per-call postcondition of data_received from an empty buffer; "
+    "the postcondition's tail clause is stated for calls that do not meet a bad preamble (after one the helper reports an error and the connection closes)",
 ]
 
 
@@ -89,6 +91,7 @@ def read_varuint_contract():
             body_hints=("unfold(vscan(view(self)[self._pos:]))\n"
                         "unfold(varacc(old(view(self))[old(self._pos):], self._pos - old(self._pos) + 1))\n"
                         "seq_suffix_facts(view(self), old(self._pos), self._pos)\n"
+                        "seq_suffix_index(view(self), old(self._pos), self._pos)\n"
                         "vscan_range(view(self)[self._pos + 1:])\n"),
             exit_hints="unfold(vscan(view(self)[self._pos:]))",
         )},
@@ -138,6 +141,14 @@ def vscan_range(s: bytes):
             vscan_range(s[1:])
 
 
+def seq_suffix_index(v: bytes, p0: int, p: int):
+    a = v[p0:p]
+    b = v[p:]
+    assert len(a) == p - p0
+    assert v[p0:] == a + b
+    assert b[0] == v[p]
+
+
 def seq_suffix_facts(v: bytes, p0: int, p: int):
     """Structural facts of the sequence theory (each proved here, then available to the caller)."""
     pass
@@ -147,9 +158,11 @@ def lemma_contracts():
     return [
         Contract(M + "vscan_range", params={"s": "bytes"}, ensures=["vscan(s) >= -1", "vscan(s) < len(s)"],
                  decreases="len(s)", recursive_ok=True, kind="auxiliary", tags=["C01"]),
+        Contract(M + "seq_suffix_index", params={"v": "bytes", "p0": "int", "p": "int"}, requires=["0 <= p0", "p0 <= p", "p < len(v)"],
+                 ensures=["v[p0:][p - p0] == v[p]"], kind="auxiliary", tags=["C01"]),
         Contract(M + "seq_suffix_facts", params={"v": "bytes", "p0": "int", "p": "int"},
                  requires=["0 <= p0", "p0 <= p", "p < len(v)"],
-                 ensures=["v[p:][1:] == v[p + 1:]", "v[p:][0] == v[p]", "v[p0:][p - p0] == v[p]", "len(v[p:]) == len(v) - p"],
+                 ensures=["v[p:][1:] == v[p + 1:]", "v[p:][0] == v[p]", "len(v[p:]) == len(v) - p"],
                  kind="auxiliary", tags=["C01"]),
     ]
 
@@ -161,7 +174,18 @@ def targets(eng):
     m = source.get_module("contracts.c01")
     for fn in ("view", "RI"):
         names[fn] = VFunc("py", node=m.funcs[fn], module="contracts.c01", qualname=fn, closure=None)
+
+    def _pow2(eng_, st, args, kwargs):
+        """2 ** k as the uninterpreted pow2 of A-BITS (the same term `x << k` is defined with)."""
+        import pyvc.ops as _ops
+        _ops._BITS["used"] = True
+        return ok(st, VInt(_ops.pow2_f(as_int(args[0]))))
+    names["pow2"] = VFunc("builtin", name="pow2", impl=_pow2)
     lts = register_lemmas(eng, "contracts.c01", lemma_contracts())
+    import contracts.lemmas_seg as ls
+    lts += register_lemmas(eng, "contracts.lemmas_seg", ls.lemma_contracts())
+    import contracts.lemmas_rt as lr
+    lts += register_lemmas(eng, "contracts.lemmas_rt", lr.lemma_contracts())
     cs = [add_to_buffer_contract(), remove_from_buffer_contract(), read_contract(), read_varuint_contract(), data_received_contract()]
     for c in cs:
         eng.contracts[c.target] = c
